@@ -450,7 +450,8 @@ func (s *Stream) handleFrame(f Frame) (err error) {
 		}
 	}
 
-	if err != nil {
+	if err != nil && s.state == StateActive {
+		// Only start the closing handshake if we did not already send a close frame: at most one goes on the wire.
 		s.state = StateClosedByUs
 		// TODO consider flushing the close
 		s.prepareClose(EncodeCloseFramePayload(CloseProtocolError, ""))
